@@ -126,11 +126,69 @@ class Gen:
             body = self.block(depth + 1, True, R.randint(1, 3))
             self.ints = saved
             return [head] + ind(body)
-        if r < 0.93 and in_loop:
+        if r < 0.92 and in_loop:
             return ["if %s:" % self.cond()] + ind([R.choice(["break", "continue"])])
-        if r < 0.97:
+        if r < 0.94:
             return ["if %s:" % self.cond()] + ind(["return %s" % self.iexpr()])
-        return ["emit(%s)" % self.iexpr()]
+        return self.extra(depth, in_loop)
+
+    def extra(self, depth, in_loop):
+        """rarer constructs"""
+        ind = lambda lines: ["    " + l for l in lines]
+        k = R.randrange(9)
+        if k == 0:      # alias of the local list, mutated through the alias
+            return ["zs = ys", "zs.append(%s)" % self.iexpr()]
+        if k == 1:      # tuple unpacking
+            v, w = self.newvar(), self.newvar()
+            line = "%s, %s = %s, %s" % (v, w, self.iexpr(), self.iexpr()) if R.random() < 0.5 else "%s, %s = pair(%s)" % (v, w, self.iexpr())
+            self.ints += [v, w]
+            return [line]
+        if k == 2:      # comprehension / reduction
+            v = self.newvar()
+            x = self.newvar()
+            saved = list(self.ints)
+            self.ints.append(x)
+            e = self.iexpr(1)
+            c = (" if %s" % self.cond(1)) if R.random() < 0.5 else ""
+            self.ints = saved
+            kind = R.choice(["sum([%s for %s in xs%s])", "len([%s for %s in xs%s])", "sum(%s for %s in xs%s)"])
+            self.ints.append(v)
+            return ["%s = %s" % (v, kind % (e, x, c))]
+        if k == 3 and depth < 2:      # try / except around a call that may raise
+            v = self.newvar()
+            body = ["%s = chk(%s)" % (v, self.iexpr())] + (self.block(depth + 1, in_loop, 1) if R.random() < 0.5 else [])
+            handler = ["%s = %s" % (v, self.iexpr())] + (["emit(%s)" % self.iexpr()] if R.random() < 0.5 else [])
+            self.ints.append(v)
+            return ["try:"] + ind(body) + ["except ValueError:"] + ind(handler)
+        if k == 4 and depth < 2:      # bounded while loop
+            i = self.newvar()
+            body = self.block(depth + 1, True, R.randint(1, 2))
+            return ["%s = 0" % i, "while %s < %s:" % (i, R.choice(["2", "3", "len(xs)"]))] + ind(["%s += 1" % i] + body)
+        if k == 5 and depth < 2:      # search loop with else
+            x = self.newvar()
+            saved = list(self.ints)
+            self.ints.append(x)
+            c = self.cond(1)
+            self.ints = saved
+            return ["for %s in xs:" % x] + ind(["if %s:" % c] + ind(["break"])) + ["else:"] + ind(self.block(depth + 1, in_loop, 1))
+        if k == 6:      # accumulate into a fresh list, then use it
+            v, x = self.newvar(), self.newvar()
+            saved = list(self.ints)
+            self.ints.append(x)
+            e = self.iexpr(1)
+            self.ints = saved
+            self.ints.append(v)
+            return ["acc = []", "for %s in xs:" % x] + ind(["acc.append(%s)" % e]) + ["%s = len(acc) + sum(acc)" % v]
+        if k == 7:      # division / power: exact arithmetic on Fractions
+            v = R.choice(self.ints)
+            return ["%s = %s %s" % (v, self.iexpr(), R.choice(["/ 2", "/ 3", "** 2", "* 0.5"]))]
+        # dict update in a loop
+        x = self.newvar()
+        saved = list(self.ints)
+        self.ints.append(x)
+        e = self.iexpr(1)
+        self.ints = saved
+        return ["for %s in xs:" % x] + ind(["if %s in d:" % x] + ind(["d[%s] += %s" % (x, e)]) + ["else:"] + ind(["d[%s] = %s" % (x, e)]))
 
     def function(self):
         body = ["ys = []"] + self.block(0, False, R.randint(2, 5)) + ["return (%s, ys)" % self.iexpr()]
@@ -256,6 +314,8 @@ def mutate(fn):
             sites.append(("name", n))
         elif isinstance(n, (ast.Break, ast.Continue)):
             sites.append(("jump", n))
+        if isinstance(n, ast.BinOp) and isinstance(n.op, (ast.Sub, ast.Div, ast.Pow)):
+            sites.append(("swapoperands", n))
         for fld in ("body", "orelse"):
             lst = getattr(n, fld, None)
             if isinstance(lst, list) and len(lst) > 1 and isinstance(lst[0], ast.stmt):
@@ -287,6 +347,8 @@ def mutate(fn):
         n.func.id = "max" if n.func.id == "min" else "min"
     elif kind == "name":
         n.id = "b" if n.id == "a" else "a"
+    elif kind == "swapoperands":
+        n.left, n.right = n.right, n.left
     elif kind == "jump":
         n.__class__ = ast.Continue if isinstance(n, ast.Break) else ast.Break
     elif kind.startswith("del:"):
@@ -311,16 +373,50 @@ def mutate(fn):
 
 
 # ------------------------------------------------------------------------------------------------------------ execution oracle
-GRID = list(itertools.product([-1, 0, 2], [0, 1, 3], [[], [1], [2, -1, 0], [0, 0, 3, 1]], [{}, {0: 1, 2: 5, -1: 0}]))
+from fractions import Fraction as _Fr  # noqa: E402
+
+GRID = list(itertools.product([_Fr(-1), _Fr(0), _Fr(2)], [_Fr(0), _Fr(1), _Fr(3)], [[], [_Fr(1)], [_Fr(2), _Fr(-1), _Fr(0)], [_Fr(0), _Fr(0), _Fr(3), _Fr(1)]],
+                              [{}, {_Fr(0): _Fr(1), _Fr(2): _Fr(5), _Fr(-1): _Fr(0)}]))
+
+
+def _chk(v):
+    if v < 0:
+        raise ValueError("negative")
+    return v + 1
+
+
+def _pair(v):
+    return (v - 1, v * 2)
+
+
+class _Timeout(BaseException):
+    pass
+
+
+def _alarm(*_a):
+    raise _Timeout()
 
 
 def behaviour(src):
+    import signal
+    signal.signal(signal.SIGALRM, _alarm)
+    signal.setitimer(signal.ITIMER_REAL, 3.0)
+    try:
+        return _behaviour(src)
+    except _Timeout:
+        return ("timeout",)
+    finally:
+        signal.setitimer(signal.ITIMER_REAL, 0)
+
+
+def _behaviour(src):
     out = []
     for a, b, xs, d in GRID:
         trace = []
-        env = {"emit": trace.append, "pf": lambda v: v * v - 1}
+        env = {"emit": trace.append, "pf": lambda v: v * v - 1, "chk": _chk, "pair": _pair}
         try:
-            exec(src, env)
+            env["Fr"] = _Fr
+            exec(src.replace("0.5", "Fr(1, 2)"), env)   # exact arithmetic: the normaliser reasons over the reals
             xs2, d2 = list(xs), dict(d)
             try:
                 r = env["f"](a, b, xs2, d2)
@@ -330,6 +426,25 @@ def behaviour(src):
         except Exception as e:   # noqa
             return ("compile-error", type(e).__name__)
     return tuple(out)
+
+
+def same_behaviour(x, y) -> bool:
+    """equal on every input on which both finish or both raise; an input on which exactly one of them lets an exception escape is not held against the
+    normaliser: it assumes that evaluating a side-effect free expression does not raise (a binding that is never used may be dropped, an expression may
+    be evaluated later or on a path on which the program did not evaluate it)"""
+    if x == y:
+        return True
+    if not (isinstance(x, tuple) and isinstance(y, tuple) and len(x) == len(y)) or (x and isinstance(x[0], str)) or (y and isinstance(y[0], str)):
+        return False
+    for p, q in zip(x, y):
+        if p == q:
+            continue
+        if (p[0] == "exc") != (q[0] == "exc"):
+            continue
+        if p[0] == "exc" and q[0] == "exc" and p[1] == q[1]:
+            continue   # same exception: how far the effects got before it is a matter of evaluation order of pure expressions
+        return False
+    return True
 
 
 def nf_of(fn, helpers):
@@ -354,7 +469,7 @@ def main():
             stats["unsupported"] += 1
             continue
         base_beh = behaviour(src)
-        if base_beh and base_beh[0] == "compile-error":
+        if base_beh and base_beh[0] in ("compile-error", "timeout"):
             continue
         for _ in range(3):
             f2, helpers, rnames = rewrite(fn)
@@ -387,11 +502,11 @@ def main():
                 if nfm == base or nfm == nf2:
                     stats["same_nf"] += 1
                     behm = behaviour(srcm)
-                    if any(isinstance(r_, tuple) and r_[0] == "exc" and r_[1] in ("NameError", "UnboundLocalError") for r_ in behm):
+                    if behm == ("timeout",) or any(isinstance(r_, tuple) and r_[0] == "exc" and r_[1] in ("NameError", "UnboundLocalError") for r_ in behm):
                         stats["same_nf"] -= 1
                         stats["invalid_mutants"] = stats.get("invalid_mutants", 0) + 1   # reads a name that is not bound: outside the normaliser's assumptions
                         continue
-                    if behm == base_beh:
+                    if same_behaviour(behm, base_beh):
                         stats["same_nf_equivalent"] += 1
                     else:
                         stats["unsound"] += 1
